@@ -16,6 +16,7 @@ FEATURES = [
     'derived_redecl', 'derived_new', 'inverse', 'multi_inherit', 'abstract', 'sexpr',
     'defined_aggr',          # TYPE ilist = LIST OF INTEGER
     'renamed_enum', 'number', 'binary', 'logical',
+    'selmember_renamed_enum',   # entity that is a select member (or its ancestor) has an attribute of a renamed enumeration type
 ]
 
 ITEMS = ['red', 'green', 'blue', 'cyan', 'amber', 'violet', 'white', 'grey']
@@ -112,6 +113,19 @@ class Gen(object):
                 t = self.attr_type(s, names, depth=0)
                 opt = rng.random() < .3
                 e.attrs.append(Attr('%s_a%d' % (e.name, j), t, opt))
+        # ---- open finding C02 'select over an entity with a renamed-enumeration attribute does not compile':
+        #      the select class header uses the renamed enumeration's typedef before it is declared
+        if not self.ok('selmember_renamed_enum'):
+            members = set()
+            for t in s.types:
+                if t.kind == 'select':
+                    for m in t.members:
+                        if s.has_entity(m):
+                            members |= set(s.ancestors(m) + [m])
+            for e in ents:
+                if e.name in members:
+                    for a in e.attrs:
+                        self._derename(s, a.type)
         # ---- derived
         for e in ents:
             if e.supers and self.ok('derived_redecl') and rng.random() < .3:
@@ -136,6 +150,12 @@ class Gen(object):
                             tgt.inverse.append(Inverse('inv_%s' % a.name, e.name, a.name, 'SET', 0, None))
                             s.tags.add('inverse')
         return s
+
+    def _derename(self, s, t):
+        if t.kind == 'named' and t.name == 'colour2':
+            t.name = 'colour'
+        elif t.kind == 'aggr':
+            self._derename(s, t.elem)
 
     def sexpr(self, subs):
         rng = self.rng
